@@ -2,6 +2,7 @@
 import copy
 import random
 
+import hostile_env  # noqa: F401  (first: answers the library's own environment lookups when VERIF_HOSTILE_ENV=1)
 from common import main
 import buildlib
 from dznpy import dznpy_version
